@@ -628,3 +628,47 @@ def _hc_frag_dup():
 @harness_canary('C13', 'static: separator kept when the content is empty')
 def _hc_frag_sep():
     return _edited_json_py("sep2 = ', ' if content else ' '", "sep2 = ', '")
+
+
+# ---------------------------------------------------------------------------------------------------------------------
+# probe of a global assumption of the deductive layer: "logger calls and lazy message builders are dropped from the
+# verified text: assumed pure and total".  Every other check runs with logging off; a running daemon logs.  The corpus and
+# the hostile-string sweep are decoded and rendered again in a subprocess with DEBUG logging of every section switched on
+# (the lazy builders -- lazynlri, lazyattribute, lazyformat, f-strings over peer data -- are then evaluated).
+LOGPROBE = """
+import os, sys, json
+os.environ['exabgp_log_enable'] = 'true'
+os.environ['exabgp_log_level'] = 'DEBUG'
+os.environ['exabgp_log_all'] = 'true'
+os.environ['exabgp_log_destination'] = 'stderr'
+from exabgp.environment import getenv
+from exabgp.logger import log
+log.init(getenv())
+from bounded import c13
+r = c13.events_from_wire(sys.argv[1], int(sys.argv[2]))
+print(json.dumps({'evaluations': r['evaluations'], 'failures': r['failures'][:5]}))
+"""
+
+
+@bounded('C13', 'events-with-debug-logging')
+def events_with_debug_logging(tier, seed):
+    import subprocess
+    import sys
+
+    root = os.path.dirname(os.path.dirname(os.path.abspath(__file__)))
+    env = dict(os.environ)
+    env['PYTHONPATH'] = os.path.join(os.environ.get('PYVC_REPO', '/repo'), 'src') + ':' + root
+    with open(os.devnull, 'w') as null:
+        p = subprocess.run([sys.executable, '-c', LOGPROBE, tier, str(seed)], stdout=subprocess.PIPE, stderr=null, env=env, timeout=1200, text=True)
+    if p.returncode != 0 or not p.stdout.strip():
+        return {'evaluations': 1, 'distinct_nontrivial': 1, 'bound': 'subprocess', 'rule': '', 'samples': [{}], 'failures': [{'what': f'decoding and rendering the corpus with DEBUG logging on ended with exit status {p.returncode} (an exception raised by a log message builder escapes where logging off hides it)', 'input': {'tier': tier}}]}
+    r = json.loads(p.stdout.strip().splitlines()[-1])
+    fails = r['failures']
+    for f in fails:
+        f['what'] = 'with DEBUG logging on: ' + f['what']
+    return {'evaluations': r['evaluations'], 'distinct_nontrivial': r['evaluations'], 'bound': 'the events-from-wire sweep repeated in a subprocess with exabgp_log_level=DEBUG and every log section enabled (stderr discarded)', 'rule': 'as events-from-wire', 'samples': [{'log': 'DEBUG'}], 'failures': fails}
+
+
+@replayer('C13', 'events-with-debug-logging')
+def _replay_logging(f):
+    return not events_with_debug_logging('quick', 1)['failures']
